@@ -654,7 +654,13 @@ def build_cases(ctx, doc, gen, rng, quick):
 
 
 def run(ctx):
+    import time
     rng = ctx.rng
+    t0 = time.time()
+    phases = []
+
+    def mark(name):
+        phases.append("%s %.0fs" % (name, time.time() - t0))
     sys.path.insert(0, os.path.join(ctx.verif, "translate"))
     import t_val
     gen_path = os.path.join(ctx.verif, "coq", "gen", "Validate.v")
@@ -668,8 +674,11 @@ def run(ctx):
         translated = False
         ctx.unshown("translator T-val cannot read the validation path of this tree any more: " + str(ex)[:600])
     join_harness = build_harness(ctx, sanitize=not ctx.quick)      # compiles while Coq / OCaml build
+    mark("translated")
     ctx.note(self_test_translator(ctx, ctx.quick))
+    mark("self-test")
     coq = ctx.coq()
+    mark("coq")
     try:
         mexe = ctx.extract()
     except vlib.BuildError:
@@ -678,7 +687,9 @@ def run(ctx):
         except Exception:
             pass
         raise
+    mark("extracted")
     exe = join_harness()                    # a BuildError here is reported as "no longer shown" by check.py
+    mark("harness built")
     doc, gen = load_tables(ctx, mexe)
     stats = {"outcomes": {}}
     cases = []
@@ -686,6 +697,8 @@ def run(ctx):
         cases.append(dict(c, gen="corpus"))
     cases += build_cases(ctx, doc, gen, rng, ctx.quick)
     n = evaluate(ctx, exe, mexe, cases, stats)
+    mark("cases run")
+    ctx.note("phases (cumulative wall clock): " + ", ".join(phases))
     if ctx.is_unshown() and ctx.quick:
         # search phase: the thorough case set against the documented specification
         more = build_cases(ctx, doc, gen, rng, False)
